@@ -105,7 +105,40 @@ def handle_failure(run, mod, o, known):
     if last_path is None:
         payload = mk_payload(run, mod, o, None)
         last_path = write_replay(pid, o.name, payload)
-    run.violations.append({"obligation": o.name, "replay": last_path, "confirmed": False})
+    refuted = bool(attempts) and all(isinstance(a, dict) and a.get("confirmed") is False and not a.get("error") for a in attempts)
+    run.violations.append({"obligation": o.name, "replay": last_path, "confirmed": False, "refuted": refuted, "kind": o.kind})
+
+
+def have_oracle(pid):
+    return os.path.exists(os.path.join(core.VERIF, "oracles", "%s.py" % pid))
+
+
+def run_oracle(run, pid, why):
+    """the property's bounded native oracle (statement-level test of the real code) - run at most once per check"""
+    if run.oracle is not None:
+        return run.oracle
+    if not have_oracle(pid):
+        run.oracle = {"missing": True, "why": why}
+        return run.oracle
+    budget = float(os.environ.get("VERIF_ORACLE_S", "0") or 0) or (120.0 if run.tier == "thorough" else 25.0)
+    try:
+        from oracles.run import run_oracle as _ro
+        res = _ro(pid, budget, run.seed)
+    except core.WallClock:
+        raise
+    except Exception as e:
+        res = {"crash": "%s: %s" % (type(e).__name__, str(e)[:300]), "cases": 0, "failures": []}
+    res["why"] = why
+    run.oracle = res
+    for i, fl in enumerate((res.get("failures") or [])[:3]):
+        payload = {"property": pid, "obligation": "%s/bounded-native-oracle/%s" % (pid, fl.get("what", "failure")), "function": "oracles/%s.py" % pid,
+                   "clause": str(fl.get("what", "failure")), "kind": "bounded", "engine": "native oracle (bounded stand-in)", "solver": None,
+                   "solver_result": "concrete failing input found by the bounded native oracle", "inputs": fl.get("input"),
+                   "native": {"confirmed": True, "observed": fl.get("observed"), "expected": fl.get("expected")},
+                   "verifier_output": {"reason": why, "bound": res.get("bound")}, "known_finding": None}
+        path = write_replay(pid, payload["obligation"] + "#%d" % i, payload)
+        run.violations.append({"obligation": payload["obligation"], "replay": path, "confirmed": True, "oracle": True})
+    return res
 
 
 def mk_payload(run, mod, o, model, known=None):
@@ -122,7 +155,7 @@ def mk_payload(run, mod, o, model, known=None):
         "inputs": inputs, "tag": o.tag if isinstance(o.tag, (dict, list, str, int, type(None))) else str(o.tag),
         "verifier_output": {"reason": o.reason, "model": str(model)[:4000] if model is not None else None,
                             "goal": str(o.goal)[:2000]},
-        "known_finding": known,
+        "known_finding": known, "note": o.note,
     }
 
 
@@ -146,9 +179,7 @@ def main(argv=None):
     import signal
     wall = int(os.environ.get("VERIF_WALL_S", "0") or 0) or (7200 if tier == "thorough" else 1500)
 
-    class WallClock(Exception):
-        pass
-
+    WallClock = core.WallClock
     fired = []
 
     def on_alarm(signum, frame):
@@ -161,7 +192,7 @@ def main(argv=None):
         mod = load_prop(pid)
         mod.build(run)
         goals = [o for o in run.obls if not isinstance(o, Cover)]
-        if not goals:
+        if not goals and not run.out_of_reach:
             raise RuntimeError("vacuity guard: zero obligations generated")
         discharge(run.obls, run.budget())
         known = load_known_findings()
@@ -203,6 +234,26 @@ def main(argv=None):
             handle_failure(run, mod, o, known)
         if hasattr(mod, "post"):
             mod.post(run)
+        # bounded native stand-in: (a) sections out of reach, (b) obligations the solver left undecided, (c) failed obligations whose
+        # counter-models did not reproduce natively (search for a concrete failing input), (d) thorough tier: always
+        unconfirmed = [v for v in run.violations if not v["confirmed"]]
+        if run.out_of_reach or run.undecided or (unconfirmed and not any(v["confirmed"] for v in run.violations)) or tier == "thorough":
+            why = ("sections out of reach: " + "; ".join("%s (%s)" % (x["section"], x["reason"][:120]) for x in run.out_of_reach)) if run.out_of_reach else \
+                  ("%d obligations undecided by the solvers" % len(run.undecided)) if run.undecided else \
+                  ("failed obligations without a reproducing counter-model: search for a concrete failing input" if unconfirmed else "thorough tier")
+            run_oracle(run, pid, why)
+        # a failed obligation whose every counter-model was replayed on the real code and did NOT reproduce there, while the bounded native
+        # oracle finds no failing input either, is an unestablished proof step (brittle contract / abstraction), not a violation:
+        # the bounded stand-in decides this run and the evidence says so.  Failed obligations that could not be replayed stay violations.
+        unconfirmed = [v for v in run.violations if not v["confirmed"]]
+        orc_ = run.oracle or {}
+        oracle_clean = run.oracle is not None and not orc_.get("missing") and not orc_.get("crash") and not orc_.get("failures")
+        if unconfirmed and len(unconfirmed) == len(run.violations) and oracle_clean and all(v.get("refuted") for v in unconfirmed):
+            for v in unconfirmed:
+                run.out_of_reach.append({"section": v["obligation"], "reason": "obligation not established by the proof; the verifier's counter-models were replayed "
+                                         "on the real code and do not reproduce there (%s)" % v["replay"]})
+            run.extra["unestablished_obligations"] = [v["obligation"] for v in unconfirmed]
+            run.violations = []
         if tier == "thorough":
             thorough_extras(run, pid)
     except WallClock:
@@ -213,8 +264,8 @@ def main(argv=None):
         rc = 2
     except core_unsupported() as e:
         run.notes.append("undecided: %s" % (e,))
-        print("UNDECIDED property=%s reason=%s" % (pid, e))
-        rc = 2
+        run.out_of_reach.append({"section": "(whole check)", "reason": "construct outside the engine: %s" % (e,)})
+        rc = fallback_whole(run, pid, "UNDECIDED property=%s reason=%s" % (pid, e), 2)
     except Exception as e:
         traceback.print_exc()
         run.notes.append("checker crash: %r" % (e,))
@@ -227,6 +278,10 @@ def main(argv=None):
         rc = 2
     # known findings count as discharged-with-finding for the level accounting
     level = getattr(mod, "LEVEL", "proof") if mod else "proof"
+    orc = run.oracle or {}
+    stood_in = bool(run.out_of_reach or run.undecided) and run.oracle is not None and not orc.get("missing") and not orc.get("crash")
+    if stood_in:
+        level = "exploration"
     for o in run.obls:
         if o.status == "known":
             o.status = "proved-known"
@@ -260,16 +315,34 @@ def main(argv=None):
             print("VIOLATION property=%s replay=%s obligation=%s no-failing-input-found" % (pid, v["replay"], v["obligation"]))
     if run.violations:
         rc = 1
-    elif run.undecided and rc == 0:
-        for o in run.undecided[:20]:
-            print("UNDECIDED %s: %s" % (o.name, o.reason))
-        rc = 2
+    elif (run.undecided or run.out_of_reach) and rc == 0:
+        if stood_in:
+            print("BOUNDED property=%s proof out of reach for this code shape (%s); bounded native oracle stood in: %s cases, 0 failures"
+                  % (pid, "; ".join(x["section"] for x in run.out_of_reach) or "%d undecided obligations" % len(run.undecided), orc.get("cases")))
+        else:
+            for o in run.undecided[:20]:
+                print("UNDECIDED %s: %s" % (o.name, o.reason))
+            for x in run.out_of_reach[:20]:
+                print("UNDECIDED property=%s reason=section %s out of reach: %s" % (pid, x["section"], x["reason"]))
+            rc = 2
     if ev is not None:
         c = ev["coverage"]
         print("%s %s: %d obligations, %d discharged, %d cover, %d violations, %d known, %d undecided, %.1fs"
               % (pid, tier, c["obligations"], c["discharged"], c["cover_queries"], len(run.violations), len(run.known),
                  len(run.undecided), ev["wall_s"]))
     return rc
+
+
+def fallback_whole(run, pid, line, rc):
+    """the whole driver fell out of reach: the bounded native oracle decides this run (or the old verdict stays when there is none)"""
+    try:
+        res = run_oracle(run, pid, line)
+    except core.WallClock:
+        res = {"missing": True}
+    if res.get("missing") or res.get("crash"):
+        print(line)
+        return rc
+    return 0
 
 
 def thorough_extras(run, pid):
